@@ -8,6 +8,7 @@ import (
 	"net/http"
 	"strings"
 	"time"
+	"unsafe"
 
 	mcp "trpc.group/trpc-go/trpc-mcp-go"
 	"verif.local/engine/explore"
@@ -286,6 +287,7 @@ func init() {
 		c.Enumerate("c08/get-refused")
 		c.Enumerate("c08/retry-cancel")
 		c.Enumerate("c08/server-release")
+		c.Enumerate("c08/server-release-inflight")
 		for _, cfg := range c08Configs() {
 			pb := c.Pick(2, 3)
 			if cfg.N == 2 || (cfg.Mode == "ls" && (cfg.Fault == "reset" || cfg.Fault == "eof")) {
@@ -644,6 +646,95 @@ func c08ServerRelease(tier string, i int) CaseResult {
 	return cr
 }
 
+// c08ServerReleaseInflight: a peer vanishes while its call is still running in a handler that only
+// ends when its context ends; on the HTTP transports that carry the call on the POST's own
+// connection the server must end that context, and everything it started for the peer is released.
+func c08ServerReleaseInflight(tier string, i int) CaseResult {
+	mode := []string{"ss", "sj", "sl", "slj", "sd", "ls"}[i]
+	cr := CaseResult{Desc: fmt.Sprintf("server=%s: a peer calls a tool that waits for the end of its context, then the peer's connections are gone", mode), Nontrivial: true}
+	var viol []explore.Violation
+	obs := &hx.Log{}
+	k := func(s string) string { return fmt.Sprintf("%s:server-release-inflight:%s", s, mode) }
+	res := vsched.Run(vsched.Config{}, func() {
+		r := NewRig(mode)
+		entered, release, ctxEnded, returned := &hx.Flag{}, &hx.Flag{}, &hx.Flag{}, &hx.Flag{}
+		r.RegisterTool(mcp.NewTool("wait"), func(ctx context.Context, req *mcp.CallToolRequest) (*mcp.CallToolResult, error) {
+			entered.Set()
+			vsched.BlockObjs("tool handler waits for the end of its context", ctxProbe{ctx, release}, []uintptr{vsched.CtxID(ctx), uintptr(unsafe.Pointer(release))}, true)
+			if ctx.Err() != nil {
+				ctxEnded.Set()
+			}
+			returned.Set()
+			return nil, fmt.Errorf("gave up: %v", ctx.Err())
+		})
+		r.Start()
+		vsched.Quiesce()
+		baseThreads := libraryThreads(vsched.LiveThreads())
+		rp := NewRawPeer(r)
+		if err := rp.Handshake(); err != nil {
+			viol = append(viol, V("setup-handshake-fails", "setting the scenario up with well-behaved peers fails: %v", err))
+			return
+		}
+		if mode == "ss" || mode == "sj" {
+			rp.OpenStream()
+		}
+		cctx, cancel := vcontext.WithCancel(context.Background())
+		var px *memnet.Exchange
+		posted := &hx.Flag{}
+		vsched.Go("peer-post", func() {
+			body := []byte(`{"jsonrpc":"2.0","id":5,"method":"tools/call","params":{"name":"wait"}}`)
+			url, sid := r.URL, rp.SID
+			if mode == "ls" {
+				url, sid = rp.Endpoint, ""
+			}
+			resp, x, err := rp.P.Open(cctx, http.MethodPost, url, sid, body, nil)
+			px = x
+			if err == nil {
+				io.Copy(io.Discard, resp.Body)
+				resp.Body.Close()
+			}
+			posted.Set()
+		})
+		vsched.Quiesce()
+		if !entered.Get() {
+			viol = append(viol, V(k("call-not-served"), "the tool handler never started"))
+			release.Set()
+			vsched.Quiesce()
+			return
+		}
+		// the peer is gone: its POST (if still open) and its stream
+		cancel()
+		if rp.Stream != nil {
+			rp.Stream.CloseFromClient()
+		}
+		vsched.Quiesce()
+		// the call travels on the POST's own connection (Streamable) or belongs to the session whose stream is gone (legacy SSE)
+		if !ctxEnded.Get() {
+			viol = append(viol, V(k("handler-context-survives-peer"), "the peer's connections are gone, but the context given to the tool handler has not ended (returned=%v), so what the server started for the call cannot be released; blocked: %v", returned.Get(), vsched.LiveThreads()))
+		}
+		obs.Add("ctxEnded=%v returned=%v", ctxEnded.Get(), returned.Get())
+		if !returned.Get() {
+			release.Set() // let the handler go so that the rest can be judged
+			vsched.Quiesce()
+		}
+		if px != nil && !px.HandlerDone {
+			viol = append(viol, V(k("request-goroutine-stuck"), "the server-side handling of the POST is still running after the peer is gone and the tool handler has returned; blocked: %v", vsched.LiveThreads()))
+		}
+		after := threadsSince(baseThreads, libraryThreads(vsched.LiveThreads()))
+		if len(after) > 0 {
+			viol = append(viol, V(k("goroutine-leak"), "after the peer's connections are gone these library goroutines are still alive: %v", after))
+		}
+		if p := pendingOf(r); p != 0 {
+			viol = append(viol, V(k("pending-left"), "%d server->client requests pending", p))
+		}
+	})
+	o := finishOutcome(res, obs, viol, true)
+	cr.ObsKey = cr.Desc + o.ObsKey
+	cr.Violations = o.Violations
+	cr.Broken = o.Broken
+	return cr
+}
+
 // c08RetryCancel: with retry configured the call spends most of its time waiting between
 // attempts; a cancelled context (or a deadline) must end it at once, not at the next attempt.
 func c08RetryCancel(tier string, i int) CaseResult {
@@ -724,6 +815,8 @@ func c08RetryCancel(tier string, i int) CaseResult {
 func init() {
 	RegisterEnum(&Enum{Name: "c08/server-release", Doc: "server side: peers connect, call and vanish; with no context function, one that derives from the given context, and one that returns a context built from scratch; the goroutines the server started for the connections are released",
 		Count: func(string) int { return 9 }, Eval: c08ServerRelease})
+	RegisterEnum(&Enum{Name: "c08/server-release-inflight", Doc: "server side: a peer vanishes while its call runs in a handler that only ends with its context (Streamable with SSE / JSON answers, stateless, sessions disabled; legacy SSE): the handler's context ends with the connection that carried the call, and what the server started for the peer is released",
+		Count: func(string) int { return 6 }, Eval: c08ServerReleaseInflight})
 	RegisterEnum(&Enum{Name: "c08/retry-cancel", Doc: "clients with retry configured, every attempt answered 503: the context is cancelled (or its deadline passes) during the wait between two attempts; the call ends at once",
 		Count: func(string) int { return 6 }, Eval: c08RetryCancel})
 	RegisterEnum(&Enum{Name: "c08/get-refused", Doc: "Streamable client whose automatic listening stream is refused (405, 404, 400, 500, 503, 401, each with a body): calls work, and after Close no goroutine or response body of the refused exchange is left",
